@@ -240,7 +240,9 @@ func (ss *SourceConf) applyAux(aux *auxSourceConf) (err error) {
 		ss.isIncludeHiddenSet = true
 	}
 	var patterns []*regexp.Regexp
-	for _, s := range append(aux.Include, aux.Ignore...) {
+	// Join into a list of our own: appending to a list that belongs to somebody
+	// else writes into whatever shares its spare capacity
+	for _, s := range append(append([]string{}, aux.Include...), aux.Ignore...) {
 		var p *regexp.Regexp
 		if p, err = regexp.Compile(s); err != nil {
 			return
@@ -250,7 +252,7 @@ func (ss *SourceConf) applyAux(aux *auxSourceConf) (err error) {
 	// An omitted list has to stay nil: only then is it inherited from the
 	// preceding source (an empty slice of patterns would not be)
 	if aux.Include != nil {
-		ss.Include = patterns[0:len(aux.Include)]
+		ss.Include = patterns[0:len(aux.Include):len(aux.Include)]
 	}
 	if aux.Ignore != nil {
 		ss.Ignore = patterns[len(aux.Include):]
@@ -325,7 +327,10 @@ func (ss *SourceConf) MarshalJSON() ([]byte, error) {
 		aux.IncludeHidden = "false"
 	}
 	var strings []string
-	for _, p := range append(ss.Include, ss.Ignore...) {
+	// Join into a list of our own: an inherited include list shares its
+	// backing array (and spare capacity) with the ignore list of the source it
+	// came from, which appending to it would overwrite
+	for _, p := range append(append([]*regexp.Regexp{}, ss.Include...), ss.Ignore...) {
 		strings = append(strings, p.String())
 	}
 	// A list that was omitted stays omitted: an empty list in the document
